@@ -174,6 +174,7 @@ func c07(r *core.Run) {
 		r.Check("C07.G1", core.Key("C07.G1", fn, "store off behind known whence"), st.Pos(), core.OnlyBehind(fn, st, wh),
 			"the offset is stored only for whence 0, 1 or 2", "an unknown whence value reaches the store")
 	}
+	readAtReentrant(r, "C07.W1")
 }
 
 // fieldStores lists the stores to structName.field in fn.
